@@ -8,6 +8,7 @@ import MutagenModel.Spec.Info.TrueAudio
 import MutagenModel.Spec.Info.Tak
 import MutagenModel.Spec.Info.Musepack
 import MutagenModel.Spec.Info.Aac
+import MutagenModel.Model.Info.Ac3
 import Driver.Util
 namespace Driver
 open Mutagen Mutagen.Info
@@ -139,6 +140,10 @@ def infoAParse (kind : String) (data : Bytes) (a : Args) : String :=
   | "AAC" =>
     showResA (Aac.parse data) fun i =>
       s!"channels={i.channels} sample_rate={i.sampleRate} bitrate={showRatioA i.bitrate} length={showRatioA i.length} type={if i.adif then "ADIF" else "ADTS"}"
+  | "AC3" =>
+    showResA (Ac3.parse data) fun i =>
+      let len := match i.length with | none => "None" | some r => showRatioA r
+      s!"channels={i.channels} sample_rate={i.sampleRate} bitrate={i.bitrate} length={len} codec={if i.eac3 then "ec-3" else "ac-3"}"
   | _ => "bad-op"
 
 def infoABuild (kind : String) (a : Args) : String :=
